@@ -464,6 +464,12 @@ class Tr:
             return args[0]          # np.array(x, dtype=float) of numbers: the numbers
         if fname in self.spec.get("identity_calls", []) and args:
             return args[0]          # e.g. `_convert_units(radius, …)`: the value itself when the units are the CRS's own
+        if fname == "np.isclose" and len(args) == 2 and sorted(k.arg for k in node.keywords) == ["atol", "rtol"] \
+                and is_num(args[0][1]) and is_num(args[1][1]) and NRAT not in (args[0][1], args[1][1]):
+            kw = {k.arg: self.expr(k.value, env) for k in node.keywords}
+            a, b = self.coerce(args[0][0], args[0][1], RAT), self.coerce(args[1][0], args[1][1], RAT)
+            atol, rtol = self.coerce(*kw["atol"], RAT), self.coerce(*kw["rtol"], RAT)
+            return f"(decide (pyAbsQ ({a} - {b}) ≤ {atol} + {rtol} * pyAbsQ {b}))", BOOL
         if fname == "np.allclose" and len(args) == 2 and [k.arg for k in node.keywords] in ([], ["equal_nan"]):
             (a, ta), (b, tb) = args
             n = len(tb[1]) if isinstance(tb, tuple) and tb[0] == "tuple" else 0
@@ -1167,6 +1173,9 @@ SPECS = [
          skip_targets={"new_area": "new_area = AreaDefinition(self.area_id, self.description, self.proj_id, self.crs, "
                                    "total_cols, total_rows, new_area_extent)"},
          ignore_return_value=True, owners=["C10"]),
+    dict(name="combine_area_extents_vertical", file="pyresample/geometry.py", func="combine_area_extents_vertical", raises=True,
+         params=[("area1.area_extent", tup(RAT, RAT, RAT, RAT)), ("area2.area_extent", tup(RAT, RAT, RAT, RAT))],
+         returns=tup(RAT, RAT, RAT, RAT), select=_whole, owners=["C10"]),
     # ---- C06 -----------------------------------------------------------------------------------
     dict(name="calc_abc", file="pyresample/bilinear/_base.py", func="_calc_abc",
          params=[("corner_points", tup(tup(RAT, RAT), tup(RAT, RAT), tup(RAT, RAT), tup(RAT, RAT))), ("out_y", RAT), ("out_x", RAT)],
